@@ -378,3 +378,292 @@ def spellings(cdef, args):
     if not names:
         out.append(("value", [], {}))
     return out
+
+
+# ------------------------------------------------------------------ edit histories
+EDIT_KINDS = [
+    "change_ref", "change_ref", "new_ref", "shadow_model_ref", "del_ref", "change_model_ref", "del_model_ref",
+    "new_model_ref", "set_formula", "set_formula", "override_cells", "del_cells", "rename_cells", "new_cells",
+    "toggle_cached", "assign", "assign", "clear_at", "clear", "clear_all_cells", "new_space", "del_space",
+    "rename_space", "add_bases", "remove_bases", "space_formula", "allow_none", "obj_ref", "override_ref",
+]
+
+
+class EditGen:
+    """random edits that are (believed) valid for the current definitions held in a ModelGen"""
+
+    def __init__(self, g, rnd=None):
+        self.g = g
+        self.rnd = rnd or g.rnd
+        self.fresh = 0
+
+    def static_spaces(self):
+        return [s for s in self.g.rm.walk()
+                if s.formula is None and not any(a.formula is not None for a in R._ancestors(s))]
+
+    def steps_of(self, sp):
+        return [["s", p] for p in sp.path().split(".")]
+
+    def one(self, kind=None):
+        """returns an op (already applied to the generator's definitions) or None"""
+        rnd, g, rm = self.rnd, self.g, self.g.rm
+        kind = kind or rnd.choice(EDIT_KINDS)
+        spaces = list(rm.walk())
+        if not spaces:
+            return None
+        sp = rnd.choice(spaces)
+        mem = R.members(sp)
+        path = sp.path()
+        op = None
+        if kind == "change_ref":
+            c = [n for n, r in sp.refs.items() if r.kind == "lit"]
+            if c:
+                op = {"op": "set_ref", "space": path, "name": rnd.choice(c), "value": {"lit": rnd.randint(10, 40)},
+                      "via": "setattr"}
+        elif kind == "override_ref":
+            c = [n for n, (d, r) in mem["refs"].items() if d is not sp and r.kind == "lit"]
+            if c:
+                op = {"op": "set_ref", "space": path, "name": rnd.choice(c), "value": {"lit": rnd.randint(10, 40)},
+                      "via": "setattr"}
+        elif kind == "new_ref":
+            c = [n for n in REF_NAMES if n not in mem["refs"] and n not in mem["cells"] and n not in sp.children
+                 and not self._used_in_subs(sp, n)]
+            if c:
+                op = {"op": "set_ref", "space": path, "name": rnd.choice(c), "value": {"lit": rnd.randint(10, 40)},
+                      "via": "setattr"}
+        elif kind == "shadow_model_ref":
+            c = [n for n in rm.refs if n not in mem["refs"] and n not in mem["cells"] and n not in sp.children
+                 and rm.refs[n].kind == "lit" and not self._used_in_subs(sp, n)]
+            if c:
+                op = {"op": "set_ref", "space": path, "name": rnd.choice(c), "value": {"lit": rnd.randint(60, 90)},
+                      "via": "setattr"}
+        elif kind == "del_ref":
+            c = list(sp.refs)
+            if c:
+                op = {"op": "del_ref", "space": path, "name": rnd.choice(c)}
+        elif kind == "change_model_ref":
+            c = [n for n, r in rm.refs.items() if r.kind == "lit"]
+            if c:
+                op = {"op": "set_ref", "space": "", "name": rnd.choice(c), "value": {"lit": rnd.randint(10, 40)}}
+        elif kind == "del_model_ref":
+            c = list(rm.refs)
+            if c and rnd.random() < 0.5:
+                op = {"op": "del_ref", "space": "", "name": rnd.choice(c)}
+        elif kind == "new_model_ref":
+            c = [n for n in MODEL_REFS + ["v"] if n not in rm.refs
+                 and not any(n in s.cells or n in s.children for s in spaces)]
+            if c:
+                op = {"op": "set_ref", "space": "", "name": rnd.choice(c), "value": {"lit": rnd.randint(10, 40)}}
+        elif kind == "set_formula":
+            c = list(sp.cells)
+            if c:
+                n = rnd.choice(c)
+                cd = sp.cells[n]
+                op = {"op": "set_formula", "space": path, "name": n, "params": [list(p) for p in cd.params],
+                      "body": g.gen_body(path, n, [p for p, _ in cd.params]) + " + 1000",
+                      "lam": rnd.random() < 0.2, "cached": cd.cached}
+        elif kind == "override_cells":
+            c = [n for n, (d, cd) in mem["cells"].items() if d is not sp]
+            if c:
+                n = rnd.choice(c)
+                cd = mem["cells"][n][1]
+                op = {"op": "set_formula", "space": path, "name": n, "params": [list(p) for p in cd.params],
+                      "body": g.gen_body(path, n, [p for p, _ in cd.params]) + " + 500",
+                      "lam": False, "cached": cd.cached}
+        elif kind == "del_cells":
+            c = [n for n in sp.cells if not self._cell_is_ref_target(sp, n)]
+            if c:
+                op = {"op": "del_cells", "space": path, "name": rnd.choice(c)}
+        elif kind == "rename_cells":
+            c = [n for n in sp.cells if not self._defined_elsewhere(sp, n)
+                 and not self._cell_is_ref_target(sp, n)]
+            if c:
+                self.fresh += 1
+                op = {"op": "rename_cells", "space": path, "name": rnd.choice(c), "new": "zz%d" % self.fresh}
+        elif kind == "new_cells":
+            pool = D_NAMES if isinstance(sp.parent, R.RSpace) else C_NAMES
+            c = [n for n in pool if n not in mem["cells"] and n not in mem["refs"] and n not in sp.children
+                 and n not in rm.refs and not self._used_in_subs(sp, n)]
+            if c:
+                n = rnd.choice(c)
+                op = dict(g.gen_cell(path, n), op="new_cells", space=path)
+        elif kind == "toggle_cached":
+            c = list(sp.cells)
+            if c:
+                n = rnd.choice(c)
+                op = {"op": "set_cached", "space": path, "name": n, "cached": not sp.cells[n].cached}
+        elif kind in ("assign", "clear_at", "clear", "clear_all_cells"):
+            st = [s for s in self.static_spaces() if s.cells]
+            if st:
+                s2 = rnd.choice(st)
+                c = [n for n, cd in s2.cells.items() if cd.cached]
+                if c:
+                    n = rnd.choice(c)
+                    cd = s2.cells[n]
+                    args = [rnd.choice(DOMAIN[:3])]
+                    if kind == "assign":
+                        op = {"op": "assign", "inst": self.steps_of(s2), "name": n, "args": args,
+                              "value": rnd.randint(100, 140)}
+                    elif kind == "clear_at":
+                        op = {"op": "clear_at", "inst": self.steps_of(s2), "name": n, "args": args}
+                    elif kind == "clear":
+                        op = {"op": "clear", "inst": self.steps_of(s2), "name": n}
+                    else:
+                        op = {"op": "clear_all", "inst": self.steps_of(s2), "name": n}
+        elif kind == "new_space":
+            self.fresh += 1
+            c = [n for n in ("Zs", "Ch", "Gc") if n not in sp.children and n not in mem["cells"]
+                 and n not in mem["refs"] and n not in rm.refs and not self._used_in_subs(sp, n)]
+            if c:
+                op = {"op": "new_space", "parent": path, "name": rnd.choice(c)}
+        elif kind == "del_space":
+            if rnd.random() < 0.5 and not self._is_ref_target(sp):
+                op = {"op": "del_space", "path": path}
+        elif kind == "rename_space":
+            self.fresh += 1
+            if rnd.random() < 0.5:
+                op = {"op": "rename_space", "path": path, "new": "Rn%d" % self.fresh}
+        elif kind == "add_bases":
+            tops = [s for s in rm.children.values() if s is not sp and s not in sp.bases
+                    and not s.is_within(sp) and not sp.is_within(s)]
+            if tops and isinstance(sp.parent, R.RModel):
+                b = rnd.choice(tops)
+                if self._bases_ok(sp, sp.bases + [b]):
+                    op = {"op": "add_bases", "space": path, "bases": [b.path()]}
+        elif kind == "remove_bases":
+            if sp.bases:
+                b = rnd.choice(sp.bases)
+                op = {"op": "remove_bases", "space": path, "bases": [b.path()]}
+        elif kind == "space_formula":
+            if sp.formula is not None:
+                r = rnd.random()
+                if r < 0.3:
+                    op = {"op": "set_space_formula", "space": path, "formula": None}
+                else:
+                    fd = g.gen_space_formula([p for p, _ in sp.formula.params])
+                    fd["params"] = [[p, d] for p, d in sp.formula.params]
+                    if len(fd["params"]) > 1:
+                        fd["params"][1][1] = rnd.randint(1, 3)
+                    op = {"op": "set_space_formula", "space": path, "formula": fd}
+        elif kind == "allow_none":
+            if rnd.random() < 0.3:
+                c = list(sp.cells)
+                if c and rnd.random() < 0.5:
+                    op = {"op": "set_allow_none", "space": path, "name": rnd.choice(c), "value": True}
+                else:
+                    # only switched on: withdrawing the permission is not one of the edits C02 lists, and a
+                    # held None legitimately stays
+                    op = {"op": "set_allow_none", "space": rnd.choice([path, ""]), "value": True}
+        elif kind == "obj_ref":
+            st = self.static_spaces()
+            if st and sp in st:
+                t = rnd.choice(st)
+                n = "o1"
+                if n in mem["cells"] or n in sp.children or (n in mem["refs"] and n not in sp.refs):
+                    return None
+                if self._used_in_subs(sp, n):
+                    return None
+                op = {"op": "set_ref", "space": path, "name": n, "value": {"space": t.path()}, "mode": "absolute"}
+        if op is None:
+            return None
+        if op["op"] in ("del_cells", "rename_cells", "del_space", "remove_bases", "add_bases", "set_formula",
+                        "new_cells") and self._would_dangle(op):
+            return None
+        try:
+            g.emit(op)
+        except Exception:    # noqa  the generator's own belief was wrong: drop the op
+            if g.ops and g.ops[-1] is op:
+                g.ops.pop()
+            return None
+        if has_bad_mro(rm):
+            return op
+        return op
+
+    def _used_in_subs(self, sp, name):
+        for s in self.g.rm.subs_of(sp):
+            if name in s.cells or name in s.refs or name in s.children:
+                return True
+        return False
+
+    def _defined_elsewhere(self, sp, name):
+        for s in self.g.rm.walk():
+            if s is not sp and name in s.cells:
+                try:
+                    if sp in R.mro(s) or s in R.mro(sp):
+                        return True
+                except TypeError:
+                    return True
+        return False
+
+    def _would_dangle(self, op):
+        """would the op leave an object-valued reference without its target?  (a reference to a deleted
+        object is a dangling handle - C13's subject - and poisons every formula of its space)"""
+        import copy
+        rm2 = copy.deepcopy(self.g.rm)
+        try:
+            R.apply_op(rm2, op, {}, probe=self.g.probe)
+            for s in rm2.walk():
+                for r in s.refs.values():
+                    if r.kind == "space" and r.value.deleted:
+                        return True
+                    if r.kind == "cell":
+                        if r.value[0].deleted or r.value[1] not in R.members(r.value[0])["cells"]:
+                            return True
+        except Exception:     # noqa
+            return True
+        return False
+
+    def _cell_is_ref_target(self, sp, name):
+        """a reference to a deleted object is a dangling handle (C13's subject), not a C02 dependency"""
+        for s in self.g.rm.walk():
+            for r in s.refs.values():
+                if r.kind == "cell" and r.value[1] == name:
+                    try:
+                        if r.value[0] is sp or sp in R.mro(r.value[0]):
+                            return True
+                    except TypeError:
+                        return True
+        return False
+
+    def _is_ref_target(self, sp):
+        for s in self.g.rm.walk():
+            for r in s.refs.values():
+                if r.is_obj():
+                    t = r.value if r.kind == "space" else r.value[0]
+                    if t.is_within(sp):
+                        return True
+            if s.formula is not None and s.formula.base is not None and s.formula.base.is_within(sp):
+                return True
+        return False
+
+    def _bases_ok(self, sp, bases):
+        old = sp.bases
+        sp.bases = bases
+        try:
+            if R.has_cycle(self.g.rm):
+                return False
+            for s in self.g.rm.walk():
+                R.mro(s)
+            # kinds must agree along the MRO (modelx rejects a name that is a cells in one and a ref in another)
+            for s in [sp] + self.g.rm.subs_of(sp):
+                cells, refs, kids = set(), set(), set()
+                for b in R.mro(s):
+                    cells |= set(b.cells)
+                    refs |= set(b.refs)
+                    kids |= set(b.children)
+                if cells & refs or cells & kids or refs & kids:
+                    return False
+            return True
+        except TypeError:
+            return False
+        finally:
+            sp.bases = old
+
+
+def has_bad_mro(rm):
+    try:
+        for s in rm.walk():
+            R.mro(s)
+        return False
+    except TypeError:
+        return True
